@@ -610,6 +610,12 @@ def run_dft_case(ctx, B, desc, oracle_only=False):
         if e3 is not None or not np.max(np.abs(y3.asarray() - ref3)) <= tol_for(
                 dt, max(1.0, float(np.max(np.abs(ref3))))):
             probs.append(('forward-reuse', 'second call on the same operator is wrong ({!r})'.format(e3)))
+    if impl == 'pyfftw':
+        Fp, ep = safe(lambda: DFT(sp, axes=axes, sign=sign, halfcomplex=hc, impl=impl))
+        yp, ep = safe(lambda: (Fp.init_fftw_plan(), Fp(sp.element(x.copy())))[1].asarray())
+        if ep is not None or not np.max(np.abs(yp - ref)) <= tol_for(dt, max(1.0, float(np.max(np.abs(ref))))):
+            probs.append(('forward-init-plan', 'init_fftw_plan() then call is wrong: {!r}'.format(
+                ep if ep is not None else float(np.max(np.abs(yp - ref))))))
     # inverse: explicit class with the same impl, and the .inverse property
     isign = '+' if sign == '-' else '-'
     inv_results = {}
@@ -620,7 +626,8 @@ def run_dft_case(ctx, B, desc, oracle_only=False):
         if e is not None:
             probs.append(('inverse-constructor', 'inverse constructor ({}) raised {!r}'.format(name, e)[:300]))
             continue
-        z, e = safe(lambda: Fi(Fi.domain.element(yin.copy())))
+        yel, _ = safe(lambda: Fi.domain.element(yin.copy()))
+        z, e = safe(lambda: Fi(yel))
         iimpl = Fi.impl
         if e is not None:
             probs.append(('inverse', 'inverse ({}) raised {!r}'.format(name, e)[:300], iimpl))
@@ -628,6 +635,20 @@ def run_dft_case(ctx, B, desc, oracle_only=False):
             continue
         zarr = z.asarray()
         inv_results[name] = zarr
+        if not np.array_equal(yel.asarray(), yin):
+            probs.append(('inverse-input-modified', 'input modified by the inverse transform ({}): max '
+                          'change {:.3g}'.format(name, float(np.max(np.abs(yel.asarray() - yin)))), iimpl))
+        zz, e4 = safe(lambda: Fi(yel).asarray())
+        if e4 is not None or not np.max(np.abs(zz - x)) <= tol_for(dt, max(1.0, float(np.max(np.abs(x))))):
+            probs.append(('inverse-reuse', 'second call on the SAME input element ({}) is wrong: {!r}'.format(
+                name, e4 if e4 is not None else float(np.max(np.abs(zz - x)))), iimpl))
+        if Fi.impl == 'pyfftw' and name == 'explicit':
+            # init_fftw_plan, then a call
+            Fp, ep = safe(lambda: IDFT(sp, axes=axes, sign=isign, halfcomplex=hc, impl='pyfftw'))
+            zp, ep = safe(lambda: (Fp.init_fftw_plan(), Fp(Fp.domain.element(yin.copy())))[1].asarray())
+            if ep is not None or not np.max(np.abs(zp - x)) <= tol_for(dt, max(1.0, float(np.max(np.abs(x))))):
+                probs.append(('inverse-init-plan', 'init_fftw_plan() then call is wrong: {!r}'.format(
+                    ep if ep is not None else float(np.max(np.abs(zp - x)))), iimpl))
         if zarr.shape != x.shape or not np.max(np.abs(zarr - x)) <= tol_for(dt, max(1.0, float(np.max(np.abs(x))))):
             probs.append(('inverse', 'inverse ({}) of forward(x) != x: max dev {}'.format(
                 name, np.max(np.abs(zarr - x)) if zarr.shape == x.shape else zarr.shape), iimpl))
@@ -651,7 +672,7 @@ def run_dft_case(ctx, B, desc, oracle_only=False):
             if surv and first_bad:
                 ctx.disagree(desc, 'first call of a fresh FFTW_MEASURE plan gave wrong values',
                              ans + ' (model: data survives planning)')
-        B.add('plan fresh=1 destroys=1', cbp)
+        B.add('plan fresh=1 destroys=1 inplace=0', cbp)
     line = 'dft num={} impl={} inv=0 plus={} hc={} real={} rshape={} axes={} x={}'.format(
         'x' if exact else 'f', mimpl, int(sign == '+'), int(hc), int(realdom), nl(shape), nl(axes), cl(x))
 
@@ -834,8 +855,52 @@ def run_ft_case(ctx, B, desc, oracle_only=False):
         if e3 is not None or not np.max(np.abs(yt - fwd)) <= tol:
             probs.append(('forward-temporaries', 'with create_temporaries(), second call differs '
                           'from a fresh operator: {!r}'.format(e3)))
-    # inverse on the exact forward data
     yin = ref.astype(np.result_type(dt, np.complex64))
+    xtol = tol_for(dt, max(1.0, float(np.max(np.abs(x))))) * 10
+    if impl == 'pyfftw' and not isinstance(fwd, Exception):
+        # documented call keyword planning_effort: planners other than 'estimate' overwrite the
+        # arrays they plan on; the pyfftw branches transform in place
+        for eff in (('measure',) if ctx.quick else ('measure', 'patient')):
+            Fm, _ = safe(lambda: FT(sp, axes=axes, shift=shifts, sign=sign, halfcomplex=hc, impl=impl))
+            xm = sp.element(x.copy())
+            ym, em = safe(lambda: Fm(xm, planning_effort=eff).asarray())
+            ok = em is None and np.max(np.abs(ym - ref)) <= tol
+            ctx.hit('ft/pyfftw/planning_effort={}'.format(eff))
+            if not ok:
+                probs.append(('forward-planning-' + eff, 'F(x, planning_effort={!r}) != direct sum: {!r}'.format(
+                    eff, em if em is not None else float(np.max(np.abs(ym - ref))))))
+            elif not np.array_equal(xm.asarray(), x):
+                probs.append(('forward-planning-' + eff, 'input modified'))
+            zm, em = safe(lambda: Fm.inverse(Fm.range.element(yin.copy()), planning_effort=eff).asarray())
+            if em is not None or not np.max(np.abs(zm - x)) <= xtol:
+                probs.append(('inverse-planning-' + eff, 'F.inverse(y, planning_effort={!r}) != x: {!r}'.format(
+                    eff, em if em is not None else float(np.max(np.abs(zm - x))))))
+        Fp, _ = safe(lambda: FT(sp, axes=axes, shift=shifts, sign=sign, halfcomplex=hc, impl=impl))
+        yp, ep = safe(lambda: (Fp.create_temporaries(), Fp.init_fftw_plan(),
+                               Fp(sp.element(x.copy())))[2].asarray())
+        if ep is not None or not np.max(np.abs(yp - ref)) <= tol:
+            probs.append(('forward-init-plan', 'create_temporaries(), init_fftw_plan(), call: {!r}'.format(
+                ep if ep is not None else float(np.max(np.abs(yp - ref))))))
+    if not isinstance(fwd, Exception):
+        # temporaries handed over to the inverse; inverse twice, and with out=
+        Ft2, _ = safe(lambda: FT(sp, axes=axes, shift=shifts, sign=sign, halfcomplex=hc, impl=impl))
+
+        def tmp_inverse():
+            Ft2.create_temporaries()
+            Fi2 = Ft2.inverse
+            a = Fi2(Fi2.domain.element(yin.copy())).asarray().copy()
+            b = Fi2(Fi2.domain.element(yin.copy())).asarray().copy()
+            o = Fi2.range.element()
+            Fi2(Fi2.domain.element(yin.copy()), out=o)
+            c = Ft2(sp.element(x.copy())).asarray()
+            return a, b, o.asarray(), c
+        rt, et = safe(tmp_inverse)
+        if et is not None or any(not np.max(np.abs(v - x)) <= xtol for v in rt[:3]) or \
+                not np.max(np.abs(rt[3] - ref)) <= tol:
+            probs.append(('inverse-temporaries', 'inverse sharing temporaries (twice, out=, then forward) '
+                          'is wrong: {!r}'.format(et if et is not None else [
+                              float(np.max(np.abs(v - x))) for v in rt[:3]])))
+    # inverse on the exact forward data
     inv = None
     Fi, e = safe(lambda: F.inverse)
     if e is not None:
@@ -897,6 +962,24 @@ def run_ft_case(ctx, B, desc, oracle_only=False):
     if inv is not None:
         B.add('ft inv=1 ' + common.format(int(sign == '-')) + ' x=' + cl(yin),
               lambda ans: cmp(inv, ans, 'inverse'))
+    if not hc:
+        # the fibre-wise composition of the one-axis maps ftForwardAxis / ftInverseAxis (the
+        # objects of C18.ft_inverse, C18.ft_forward_is_fourier_sum) against the real code
+        ctx.hit('ft/model-variant=sep')
+        if not isinstance(fwd, Exception):
+            B.add('ft variant=sep inv=0 ' + common.format(int(sign == '+')) + ' x=' + cl(x),
+                  lambda ans: cmp(fwd, ans, 'forward(sep)'))
+        if inv is not None and not isinstance(inv, Exception):
+            B.add('ft variant=sep inv=1 ' + common.format(int(sign == '-')) + ' x=' + cl(yin),
+                  lambda ans: cmp(inv, ans, 'inverse(sep)'))
+    if impl == 'pyfftw' and not hc:
+        # in-place pyfftw_call with a destroying planner: model says the data survives
+        bad = [pr[0] for pr in probs if 'planning' in pr[0]]
+
+        def cbpl(ans, bad=bad):
+            if fields(ans)['survives'] == '1' and bad:
+                ctx.disagree(desc, 'planning_effort=measure gave wrong values: {}'.format(bad), ans)
+        B.add('plan fresh=1 destroys=1 inplace=1', cbpl)
     return probs
 
 
@@ -971,10 +1054,15 @@ def run_gaussian(ctx):
                 if errs is None:
                     continue
                 results.append({'nd': nd, 'impl': impl, 'hc': hc, 'shift': shift, 'errors': errs})
-                # coarse grid has a visible kernel (sinc) error; it must shrink and end small
-                if not (errs[-1] < errs[0] and errs[-1] < 2e-2):
+                # second-order convergence: successive errors shrink by ~4 (the finest pair must be
+                # in [3.5, 4.5]), and the finest error is bounded by 2x the value measured on the
+                # correct code (1-d n=128: 7.3e-4, n=256: 1.8e-4; 2-d n=64: 3.0e-3)
+                ratio = errs[-2] / errs[-1] if errs[-1] > 0 else 0.0
+                bound = {(1, 3): 1.5e-3, (1, 4): 3.7e-4, (2, 3): 6.0e-3}[(nd, len(errs))]
+                if not (3.5 <= ratio <= 4.5 and errs[-1] < bound):
                     viol(ctx, 'ft gaussian convergence nd={} impl={} hc={} shift={}'.format(
-                        nd, impl, hc, shift), 'errors under refinement {}'.format(errs),
+                        nd, impl, hc, shift), 'errors under refinement {} (last ratio {:.2f}, bound {})'.format(
+                            errs, ratio, bound),
                         {'kind': 'gauss', 'nd': nd, 'impl': impl, 'hc': hc, 'shift': shift})
     ctx.extra['gaussian_convergence_test'] = results[:12]
 
@@ -1008,9 +1096,10 @@ def wavelet_configs(ctx):
                     keep[k] = c
         cfgs = list(dict.fromkeys(keep.values()))
         # the adjoint identity needs orthogonal wavelet + periodization + dyadic sizes
-        cfgs += [(wv, shape, 'pywt_periodic', lev, None, 'float64')
+        cfgs += [(wv, shape, 'pywt_periodic', lev, None, 'float64', sk)
                  for wv in ('haar', 'db2', 'sym4', 'coif1')
-                 for shape, lev in (((8,), 1), ((16,), 2), ((8, 8), 2), ((8, 4, 4), 1))]
+                 for shape, lev in (((8,), 1), ((16,), 2), ((8, 8), 2), ((8, 4, 4), 1))
+                 for sk in ('default', 'weighting', 'bdry')]
     else:
         cfgs = cfgs[:2500]
     return cfgs
@@ -1033,12 +1122,19 @@ def run_wavelet_case(ctx, B, desc, oracle_only=False):
     axes_t = tuple(axes) if axes is not None else None
     r = random.Random(desc['xseed'])
     cv_side = r.choice([1.0, 0.5, 2.0, 0.25])
-    sp = odl.uniform_discr([0] * len(shape), [cv_side * s for s in shape], shape, dtype=dt)
+    skind = desc.get('space', 'default')
+    kw = {}
+    if skind == 'weighting':      # constant weighting different from the cell volume
+        kw['weighting'] = r.choice([3.0, 0.5, 1.0])
+    elif skind == 'bdry':         # grid points on the boundary: half cells at the ends
+        kw['nodes_on_bdry'] = True if len(shape) == 1 or r.random() < 0.5 else \
+            [(True, False)] + [True] * (len(shape) - 1)
+    sp = odl.uniform_discr([0] * len(shape), [cv_side * s for s in shape], shape, dtype=dt, **kw)
     x = (np.array([r.randint(-8, 8) for _ in range(int(np.prod(shape)))], dtype=float) / 4
          ).reshape(shape).astype(dt)
-    key = 'wavelet {} mode={} nlevels={} ndim={} axes={} dtype={} shape-{}'.format(
-        wv, mode, lev, len(shape), axes_t, dt, 'odd' if any(s % 2 for s in shape) else 'even')
-    ctx.case(('wavelet', wv, mode, lev, len(shape), tuple(s % 2 for s in shape), axes_t, dt),
+    key = 'wavelet {} mode={} nlevels={} ndim={} axes={} dtype={} shape-{} space={}'.format(
+        wv, mode, lev, len(shape), axes_t, dt, 'odd' if any(s % 2 for s in shape) else 'even', skind)
+    ctx.case(('wavelet', wv, mode, lev, len(shape), tuple(s % 2 for s in shape), axes_t, dt, skind),
              sample=desc if len(ctx.samples) < 11 and shape == (8,) else None)
     ctx.hit('wavelet/' + mode)
     probs = []
@@ -1078,7 +1174,7 @@ def run_wavelet_case(ctx, B, desc, oracle_only=False):
     lv = W.nlevels
     dyadic = all(shape[a] % (2 ** lv) == 0 for a in ax_p) and lv >= 1
     if mode == 'pywt_periodic' and W.is_orthogonal and dyadic:
-        ctx.hit('wavelet/adjoint')
+        ctx.hit('wavelet/adjoint/' + skind)
         y = W.range.element(np.array([r.randint(-8, 8) for _ in range(W.range.size)], dtype=dt) / 4)
         xe = sp.element(x)
         res, e = safe(lambda: (W(xe).inner(y), xe.inner(W.adjoint(y)),
@@ -1112,6 +1208,21 @@ def run_wavelet_case(ctx, B, desc, oracle_only=False):
         if ans != 'ok ' + ' '.join(impl_sl):
             ctx.disagree(desc, 'slices ' + ' '.join(impl_sl)[:300], ans[:300])
     B.add('ravel a={} d={}'.format(a_w, d_w), cb)
+    if carr.size <= 400:
+        with warnings.catch_warnings():
+            warnings.simplefilter('ignore')
+            un = pywt.unravel_coeffs(carr, W._coeff_slices, W._coeff_shapes, output_format='wavedecn')
+        ublocks = [np.asarray(un[0]).ravel()]
+        for dct in un[1:]:
+            ublocks += [np.asarray(dct[k]).ravel() for k in sorted(dct)]
+
+        def cbu(ans, ublocks=ublocks):
+            mb = core.pfmat(fields(ans)['blocks'])
+            ib = [[Fraction(float(v)) for v in b.tolist()] for b in ublocks]
+            if mb != ib:
+                ctx.disagree(desc, 'pywt.unravel_coeffs(W(x), _coeff_slices) blocks (sizes {})'.format(
+                    [len(b) for b in ib]), 'model unravel blocks sizes {}'.format([len(b) for b in mb]))
+        B.add('unravel a={} d={} x={}'.format(a_w, d_w, core.fl(carr.tolist())), cbu)
 
     def cb2(ans, rec=rec, xr=xr):
         if isinstance(xr, np.ndarray):
@@ -1133,26 +1244,34 @@ def run_wavelet_case(ctx, B, desc, oracle_only=False):
     if W.is_orthogonal:
         probe = W.range.element(carr)
         res, e = safe(lambda: (W.adjoint(probe).asarray(), W.inverse(probe).asarray(),
-                               W.inverse.adjoint(sp.element(x)).asarray(), carr))
-        if e is None:
-            for fwd_flag, (num, den) in ((1, (res[0], res[1])), (0, (res[2], res[3]))):
-                i = int(np.argmax(np.abs(den)))
-                ratio = float(num.ravel()[i] / den.ravel()[i]) if den.ravel()[i] != 0 else None
+                               W.inverse.adjoint(sp.element(x)).asarray()))
+        fracs = sp.partition.boundary_cell_fractions
+        const = getattr(sp.weighting, 'const', None)
+        if e is None and const is not None:
+            line = 'adjweights const={} shape={} fl={} fr={}'.format(
+                fs(Fraction(float(const))), nl(shape), core.fl(Fraction(float(f[0])) for f in fracs),
+                core.fl(Fraction(float(f[1])) for f in fracs))
 
-                def cb4(ans, ratio=ratio, fwd_flag=fwd_flag):
-                    if ratio is None:
-                        return
-                    m = float(core.pfrac(ans.split()[1]))
-                    if abs(m - ratio) > 1e-4 * abs(m):
-                        ctx.disagree(dict(desc, forward=fwd_flag), 'adjoint/inverse ratio {}'.format(ratio), ans)
-                B.add('adjscale forward={} cv={}'.format(fwd_flag, fs(Fraction(float(sp.cell_volume)))), cb4)
+            def cb4(ans, res=res):
+                w = np.array([float(v) for v in core.pfl(fields(ans)['w'])]).reshape(shape)
+                sc = max(1.0, float(np.max(np.abs(res[1])))) / float(np.min(w))
+                if not np.max(np.abs(res[0] - res[1] / w)) <= tol * 100 * sc:
+                    ctx.disagree(desc, 'W.adjoint(c) != W.inverse(c) / w (model weights), max dev {:.3g}'.format(
+                        float(np.max(np.abs(res[0] - res[1] / w)))), ans[:120])
+                fw, e2 = safe(lambda: W(sp.element(w * x)).asarray())
+                if e2 is not None or not np.max(np.abs(res[2] - fw)) <= tol * 100 * max(
+                        1.0, float(np.max(np.abs(fw)))):
+                    ctx.disagree(desc, 'W.inverse.adjoint(x) != W(w * x) (model weights)', ans[:120])
+            B.add(line, cb4)
     return probs
 
 
 def run_wavelets(ctx, B, cfgs=None, oracle_only=False):
-    for wv, shape, mode, lev, axes, dt in (cfgs if cfgs is not None else wavelet_configs(ctx)):
+    for cfg in (cfgs if cfgs is not None else wavelet_configs(ctx)):
+        wv, shape, mode, lev, axes, dt = cfg[:6]
+        sk = cfg[6] if len(cfg) > 6 else ctx.rng.choice(['default', 'default', 'weighting', 'bdry'])
         desc = {'kind': 'wavelet', 'wavelet': wv, 'shape': list(shape), 'mode': mode, 'nlevels': lev,
-                'axes': list(axes) if axes is not None else None, 'dtype': dt,
+                'axes': list(axes) if axes is not None else None, 'dtype': dt, 'space': sk,
                 'xseed': ctx.rng.getrandbits(32)}
         run_wavelet_case(ctx, B, desc, oracle_only)
 
@@ -1179,6 +1298,45 @@ def run_padmode(ctx, B):
                 if ans != impl:
                     ctx.disagree(desc, impl, ans)
             B.add('padmode name={} zero={}'.format(name if name else '""', int(const == 0)), cb)
+
+
+def run_rejections(ctx, B):
+    """Constructor rejection paths (malformed stream): forward sign '+' with halfcomplex, and a
+    non-shifted halved axis.  ORACLE: the documented rule; correspondence: the model's status."""
+    odl = _odl()
+    from odl.trafos import (DiscreteFourierTransform as DFT, DiscreteFourierTransformInverse as IDFT,
+                            FourierTransform as FT, FourierTransformInverse as IFT)
+    for dt in ('float64', 'complex128'):
+        sp = odl.uniform_discr([0, 0], [1, 1], (4, 5), dtype=dt)
+        real = dt == 'float64'
+        for cls, name, inverse in ((DFT, 'dft', False), (IDFT, 'dft', True), (FT, 'ft', False),
+                                   (IFT, 'ft', True)):
+            for sign in ('-', '+'):
+                for hc in (False, True):
+                    for shifts in (((True, True), (True, False)) if name == 'ft' else (None,)):
+                        kw = dict(sign=sign, halfcomplex=hc, impl='numpy')
+                        if shifts is not None:
+                            kw['shift'] = shifts
+                        res, e = safe(lambda: cls(sp, **kw))
+                        fwdplus = (sign == '+') != inverse
+                        hce = hc and real
+                        expect_err = (fwdplus and hce) or (name == 'ft' and hce and not shifts[-1])
+                        desc = {'kind': 'ctor', 'class': cls.__name__, 'dtype': dt, 'sign': sign,
+                                'hc': hc, 'shifts': shifts}
+                        ctx.case(('ctor', cls.__name__, dt, sign, hc, shifts))
+                        ctx.hit('ctor/' + ('rejects' if e is not None else 'accepts'))
+                        got = None if e is None else exc_kind(e)
+                        if (got == 'err:value') != expect_err or (got not in (None, 'err:value')):
+                            viol(ctx, 'constructor {} dtype={} sign={} halfcomplex={} shift={}'.format(
+                                cls.__name__, dt, sign, hc, shifts),
+                                'documented: {}; got {!r}'.format(
+                                    'ValueError' if expect_err else 'accepted', e), desc)
+
+                        def cb(ans, got=got, desc=desc):
+                            if ans != (got or 'ok'):
+                                ctx.disagree(desc, got or 'ok', ans)
+                        B.add('ctor kind={} fwdplus={} hc={} lastshift={}'.format(
+                            name, int(fwdplus), int(hce), int(shifts[-1]) if shifts else 1), cb)
 
 
 # --------------------------------------------------------------------------
@@ -1214,6 +1372,7 @@ def run(ctx):
     run_backend_agreement(ctx)
     run_gaussian(ctx)
     run_padmode(ctx, B)
+    run_rejections(ctx, B)
     run_wavelets(ctx, B)
     B.flush()
     # The runner starts `search` only when NO violation was seen; the open known finding is seen
